@@ -170,6 +170,10 @@ func lwImpl(f []string) string {
 	}
 	// the server's key pair differs from case to case (three pairs, chosen by the case)
 	key, pemKey := testKeyN(enc + len(pw)*7 + nrem*3 + nlen + len(user))
+	// lastCfg: the configuration of the most recent login; reuseCfg makes the next login use it again (a
+	// reconnect / retry with the same *LoginConfig: Login prepends the current server to its list every time)
+	var lastCfg *tds.LoginConfig
+	reuseCfg := false
 	run := func() (wire []byte, errText string, outcome string, nonce []byte, rempw [][]byte) {
 		mc := newMemConn()
 		info := testInfo()
@@ -190,6 +194,10 @@ func lwImpl(f []string) string {
 			rempw = append(rempw, []byte(p))
 			cfg.RemoteServers = append(cfg.RemoteServers, tds.LoginConfigRemoteServer{Name: fmt.Sprintf("srv%d", i), Password: p})
 		}
+		if reuseCfg && lastCfg != nil {
+			cfg = lastCfg
+		}
+		lastCfg = cfg
 		nonce = genBytes(nlen, 17)
 		if enc == 35 {
 			m1 := append(wLoginAck(7, "ASE"), wMsg(1, 35)...)
@@ -350,6 +358,20 @@ func lwImpl(f []string) string {
 			}
 			if bytes.Equal(p2[2].fields[0], pkgs[2].fields[0]) {
 				return "each ciphertext uses fresh randomness"
+			}
+		}
+	}
+	// a further login with the SAME configuration object (reconnect, retry): still nothing in clear, neither
+	// on the wire nor in an error text
+	reuseCfg = true
+	wire3, errText3, _, _, _ := run()
+	for i, s := range secrets {
+		if len(s) >= 6 {
+			if bytes.Contains(wire3, s) {
+				return fmt.Sprintf("secret %d appears in clear in the bytes the client wrote (login repeated with the same configuration)", i)
+			}
+			if strings.Contains(errText3, string(s)) {
+				return fmt.Sprintf("secret %d appears in the error text (login repeated with the same configuration)", i)
 			}
 		}
 	}
